@@ -157,6 +157,13 @@ fn run_history(front: Front, reg: regions::Reg, start: u32, steps: &[Step], faul
     if tx_async {
         col.event("nb_async_tx_histories");
     }
+    // nb front-end: in one history in four a fault at a TxRequest shows as a reply of the wrong kind
+    // (the radio took the frame and answers `Idle`; the device reports UnexpectedRadioResponse)
+    let odd = front == Front::Nb && (seed >> 1) & 3 == 2;
+    dev.log.borrow_mut().odd_reply = odd;
+    if odd {
+        col.event("nb_odd_reply_histories");
+    }
     let fname = if tx_async { "nb-async-tx" } else { front.name() };
     let mut fcnt_down: u32 = 0;
     let mut last_accepted: Option<Vec<u8>> = None;
@@ -297,6 +304,7 @@ fn run_history(front: Front, reg: regions::Reg, start: u32, steps: &[Step], faul
     for k in &fault_kinds {
         match *k {
             "tx" => col.event("fault_tx"),
+            "tx-odd-reply" => col.event("fault_tx_odd_reply"),
             "setup_rx" | "rx_request" => col.event("fault_rx_setup"),
             "rx_single" | "rx_continuous" | "phy" | "cancel_rx" => col.event("fault_rx"),
             _ => col.event("fault_other"),
